@@ -609,7 +609,7 @@ def get_message_type_name(type_def: Union[model.Notification, model.Request]) ->
 def get_name(
     type_def: Union[model.Structure, model.Notification, model.Request],
 ) -> str:
-    if hasattr(type_def, "typeName"):
+    if getattr(type_def, "typeName", None):
         return type_def.typeName
     if hasattr(type_def, "name"):
         return type_def.name
